@@ -1618,6 +1618,13 @@ class Engine:
             return self.sched_recv(ch, commaok, elem_t)
         if ch is None:
             raise Blocked()
+        if self.sched is not None and not ch.items and not ch.closed:
+            # the harness itself receives: it is a waiting receiver while the goroutines run on
+            self.sched.main_waitrecv = (ch,)
+            try:
+                self.sched.run(until=lambda: bool(ch.items) or ch.closed)
+            finally:
+                self.sched.main_waitrecv = ()
         if ch.items:
             self.chan_touch(ch)
             v = ch.items.pop(0)
